@@ -75,6 +75,13 @@ class DictV(Val):
         self.d = d
 
 
+class NamedV(Val):
+    """a record of named values (time.struct_time of a concrete date)"""
+
+    def __init__(self, fields):
+        self.fields = fields
+
+
 class IteV(Val):
     def __init__(self, cond, a, b):
         self.cond = cond
@@ -1038,6 +1045,19 @@ class Evaluator(object):
             try:
                 # canonical abstraction policy: the result of every operation is named when it is large, so the
                 # folded form depends only on the sequence of operations, not on where variables are introduced
+                if isinstance(op, (ast.Add, ast.Sub)) and getattr(self, 'dates_are_typed', False) and self.dates:
+                    ka, kb = _const_int(a), _const_int(b)
+                    if ka is not None and kb is not None:
+                        da, db = ka in self.dates, kb in self.dates
+                        if da != db and (isinstance(op, ast.Add) or da):
+                            # date +/- days is a date again (dates are ordinals): remember it as one
+                            import datetime as _dt
+                            o_ = ka + kb if isinstance(op, ast.Add) else ka - kb
+                            try:
+                                d_ = _dt.date.fromordinal(o_)
+                                self.dates[o_] = (d_.year, d_.month, d_.day)
+                            except (ValueError, OverflowError):
+                                pass
                 if isinstance(op, ast.Add):
                     return alg.define(a + b)
                 if isinstance(op, ast.Sub):
@@ -1115,6 +1135,8 @@ class Evaluator(object):
             return self.unknown('missing attribute %s' % attr, node)
         if isinstance(o, IteV):
             return self.ite(o.cond, self.getattr(o.a, attr, node), self.getattr(o.b, attr, node))
+        if isinstance(o, NamedV) and attr in o.fields:
+            return o.fields[attr]
         if isinstance(o, Mat):
             if attr == 'shape':
                 return Tup([C(x) for x in o.shape])
@@ -1257,7 +1279,63 @@ class Evaluator(object):
                 self.diag('unknown', e, '**kwargs at call')
                 continue
             kwargs[kw.arg] = self.eval(kw.value, env, func)
+        if isinstance(e.func, ast.Name) and e.func.id == 'int' and len(args) == 1 and isinstance(args[0], Rat) and not kwargs:
+            self._truncation_shadow(e, args[0], env)
         return self.apply(fv, args, kwargs, e, env)
+
+    def _truncation_shadow(self, e, exact, env):
+        """int(<constant expression>): the exact model truncates the exact value.  The program truncates the DOUBLE the expression evaluates to:
+        when every name in the expression is bound to a constant the expression is folded a second time in IEEE double arithmetic, and a
+        result that truncates differently (0.9999999999 for an exact 1) is recorded - int() of a quotient that is a whole number only in
+        exact arithmetic."""
+        fr = exact.as_fraction()
+        if fr is None:
+            return
+        import math
+
+        def fl(n):
+            if isinstance(n, ast.Constant) and isinstance(n.value, (int, float)) and not isinstance(n.value, bool):
+                return float(n.value) if isinstance(n.value, float) else n.value
+            if isinstance(n, ast.Name):
+                v = env.get(n.id)
+                if isinstance(v, Rat):
+                    f_ = v.as_fraction()
+                    if f_ is not None:
+                        return int(f_) if f_.denominator == 1 else float(f_)
+                raise ValueError(n.id)
+            if isinstance(n, ast.Attribute):
+                v = self.eval(n, env, self._stack[-1] if self._stack else None)
+                if isinstance(v, Rat) and v.as_fraction() is not None:
+                    f_ = v.as_fraction()
+                    return int(f_) if f_.denominator == 1 else float(f_)
+                raise ValueError('attr')
+            if isinstance(n, ast.UnaryOp) and isinstance(n.op, (ast.USub, ast.UAdd)):
+                return -fl(n.operand) if isinstance(n.op, ast.USub) else fl(n.operand)
+            if isinstance(n, ast.BinOp):
+                a_, b_ = fl(n.left), fl(n.right)
+                if isinstance(n.op, ast.Add):
+                    return a_ + b_
+                if isinstance(n.op, ast.Sub):
+                    return a_ - b_
+                if isinstance(n.op, ast.Mult):
+                    return a_ * b_
+                if isinstance(n.op, ast.Div):
+                    return a_ / b_
+                if isinstance(n.op, ast.FloorDiv):
+                    return a_ // b_
+                if isinstance(n.op, ast.Mod):
+                    return a_ % b_
+                if isinstance(n.op, ast.Pow):
+                    return a_ ** b_
+            if isinstance(n, ast.Call) and isinstance(n.func, ast.Name) and n.func.id in ('float', 'abs', 'int', 'round') and len(n.args) == 1 and not n.keywords:
+                return {'float': float, 'abs': abs, 'int': int, 'round': round}[n.func.id](fl(n.args[0]))
+            raise ValueError(type(n).__name__)
+        try:
+            fv_ = fl(e.args[0])
+        except (ValueError, ZeroDivisionError, OverflowError, TypeError):
+            return
+        if isinstance(fv_, float) and math.isfinite(fv_) and int(fv_) != int(fr):
+            TRUNC_EVENTS.append((self._stack[-1] if self._stack else None, e, fr, fv_, dict((k, v) for k, v in env.items() if isinstance(v, Rat) and v.as_fraction() is not None and len(k) < 40)))
 
     def apply(self, fv, args, kwargs, node, cur_env=None):
         if isinstance(fv, IteV):
@@ -1494,6 +1572,9 @@ class Evaluator(object):
                         return Bool(fr.denominator == 1)
                     if a[1].target.name == 'builtins.float':
                         return Bool(fr.denominator != 1)
+                if isinstance(a[0], Rat) and isinstance(a[1], Ref) and isinstance(a[1].target, Ext) and a[1].target.name in ('datetime.date', 'datetime.datetime') \
+                        and getattr(self, 'dates_are_typed', False) and _const_int(a[0]) is not None and _const_int(a[0]) in self.dates:
+                    return Bool(a[1].target.name == 'datetime.date')
                 return alg.opaque('isinstance', (argkey(a[0]), argkey(a[1])))
             if short in ('min', 'max', 'sum', 'sorted', 'divmod', 'all', 'any', 'bool', 'zip', 'enumerate', 'print', 'repr', 'format'):
                 if short == 'print':
@@ -1529,6 +1610,10 @@ class Evaluator(object):
                     return self.unknown('invalid date', node)
                 self.dates[o] = tuple(ks)
                 return C(o)
+        if name == 'datetime.timedelta':
+            dv = kwargs.get('days', a[0] if a else C(0))
+            if isinstance(dv, Rat) and not [k_ for k_ in kwargs if k_ != 'days'] and len(a) <= 1:
+                return dv               # a difference of dates is a number of days (dates are ordinals)
         if name == 'warnings.warn':
             return NONE
         if name in ('decimal.Decimal', 'fractions.Fraction') and len(a) == 1:
@@ -1562,6 +1647,15 @@ class Evaluator(object):
                 return obj.cursor
             if attr in ('close', '__enter__', '__exit__'):
                 return NONE
+        if isinstance(obj, Rat) and _const_int(obj) is not None and _const_int(obj) in self.dates and getattr(self, 'dates_are_typed', False):
+            import datetime as _dt
+            d_ = _dt.date.fromordinal(_const_int(obj))
+            if attr == 'timetuple' and not args:
+                return NamedV({'tm_year': C(d_.year), 'tm_mon': C(d_.month), 'tm_mday': C(d_.day), 'tm_yday': C(d_.timetuple().tm_yday), 'tm_wday': C(d_.weekday())})
+            if attr == 'toordinal' and not args:
+                return obj
+            if attr == 'weekday' and not args:
+                return C(d_.weekday())
         if isinstance(obj, Mat):
             if attr == 'transpose' and not args:
                 return self.mat_transpose(obj, node)
@@ -1925,6 +2019,7 @@ class _ModuleScope(object):
 
 COND_NAMES = {'lt', 'le', 'gt', 'ge', 'eq', 'ne', 'and', 'or', 'not', 'in', 'notin', 'truthy', 'isinstance'}
 
+TRUNC_EVENTS = []    # (function, call node, exact value, double value, constants in scope): int() of an expression that truncates differently in double arithmetic
 DIV_EVENTS = []      # (function, node, denominator form, branch conditions) of every true division by a non-constant met by any evaluator
 INPLACE_EVENTS = []  # (function, statement, kind, array, value): in-place updates of arrays whose dtype follows the caller's numbers
 
